@@ -3024,7 +3024,10 @@ func (b *IPRouteBody) decodeFromBytes(data []byte, version uint8, software Softw
 	}
 
 	b.backupNexthops = []Nexthop{} // backupNexthops is added in frr7.4
-	if b.Message&messageBackupNexthops.ToEach(version, software) > 0 {
+	// Same guard as in serialize: before frr7.4 this bit is MessageLabel,
+	// and a labelled zapi5/frr6..7.3 route has no backup nexthop block.
+	if version == 6 && software.name == "frr" && software.version >= 7.4 &&
+		b.Message&messageBackupNexthops > 0 {
 		if rest < pos {
 			return errors.New("IPRouteBody backupnexthops data length is too short")
 		}
